@@ -36,12 +36,15 @@ SOURCES = {
     'big': ' nop\n' * 2000 + '.eseg\n.db ' + ', '.join(['5'] * 300) + '\n',
     'huge': ' nop\n' * 40000 + '.eseg\n.db ' + ', '.join(['5'] * 300) + '\n',      # > 64 KiB of flash: not given to the (quadratic) model
     'error-directive': ' nop\n.error "no"\n',
+    # more than 1 MiB of flash (only the default device is that large): the file needs an extended address beyond the
+    # sixteenth 64 KiB block; few scenarios (see run), never given to the model
+    'beyond-1MiB': ' ldi r16, 1\n.org 0x80100\n ldi r17, 2\n ret\n.eseg\n.db 9\n',
 }
 NAMES = ['prog.asm', 'sub/prog.asm', 'my.prog.asm', 'noext', '.hidden', 'sub/deep/x.S', 'fw.v2/blink', 'fw.v2/sub.d/x', 'sub/../blink2', './dot.asm']
 # 'lnk' is a symbolic link to a directory elsewhere (so lnk/.. is not the start directory); /dev/full opens but cannot be written
 OUTS = [None, 'out.hex', 'build/fw.hex', 'missing/fw.hex', 'adir', 'sub/../o2.hex', 'missing/../o3.hex', 'lnk/../o4.hex', 'lnk/o5.hex', '/dev/full']
 EEPS = [None, 'out.eep', 'build/fw.eep.hex', 'missing/e.hex', 'adir', 'same-as-o', 'missing/../e3.hex', 'lnk/../e4.hex', '/dev/full']
-def impl_only(s): return s['sk'] == 'huge' or any(x and ('lnk/' in x or x.startswith('/dev/')) for x in (s['o'], s['e']))
+def impl_only(s): return s['sk'] in ('huge', 'beyond-1MiB') or any(x and ('lnk/' in x or x.startswith('/dev/')) for x in (s['o'], s['e']))
 
 def target(cwd, x):
     """(path as the OS sees it, can a file be created and written there)"""
@@ -71,7 +74,8 @@ def run(tier, seed, model_ok):
     root = tempfile.mkdtemp(prefix='avra-c18-')
     dis, vio = [], []
     dist = Counter()
-    combos = [(s, n, o, e) for s in SOURCES for n in NAMES for o in OUTS for e in EEPS]
+    combos = [(s, n, o, e) for s in SOURCES for n in NAMES for o in OUTS for e in EEPS
+              if s != 'beyond-1MiB' or (n in NAMES[:2] and o in (None, 'build/fw.hex') and e in (None, 'out.eep'))]
     if tier == 'quick':
         rng.shuffle(combos)
         # every source x every -o kind x every -e kind at least once, names sampled
